@@ -14,7 +14,7 @@ func TestProbe(t *testing.T) {
 		t.Skip("no C16_PROBE")
 	}
 	for _, text := range strings.Split(p, "|||") {
-		text = strings.NewReplacer(`\n`, "\n", `\t`, "\t").Replace(text)
+		text = strings.NewReplacer(`\n`, "\n", `\t`, "\t", `\r`, "\r", `\v`, "\v", `\f`, "\f").Replace(text)
 		fs, st := checkText(text, allConfigs(), true)
 		fmt.Printf("TEXT %q accepted=%v outcome=%s nodes=%d comments=%d\n", text, st.accepted, st.outcome, st.nodes, st.comments)
 		if st.accepted {
